@@ -166,8 +166,19 @@ func LoadProgram(dir string, patterns []string) (*Program, error) {
 	if len(errs) > 0 {
 		return nil, fmt.Errorf("load errors: %s", strings.Join(errs, "; "))
 	}
-	for _, pk := range pkgs {
+	// contract files of every loaded package of the module (roots and dependencies alike)
+	var withContracts []*packages.Package
+	for path, pk := range p.Pkgs {
+		if strings.HasPrefix(path, "github.com/tdewolff/minify/v2") {
+			withContracts = append(withContracts, pk)
+		}
+	}
+	sort.Slice(withContracts, func(i, j int) bool { return withContracts[i].PkgPath < withContracts[j].PkgPath })
+	for _, pk := range withContracts {
 		for i, f := range pk.Syntax {
+			if i >= len(pk.CompiledGoFiles) {
+				continue
+			}
 			name := pk.CompiledGoFiles[i]
 			if strings.HasSuffix(name, "_verif.go") {
 				p.readContracts(pk, f, name)
